@@ -33,6 +33,7 @@ builderr=$(grep -c "^error" "$W/suite.log")
 res "RESULT suite_with_change: $passed build_errors=$builderr $failed_tests"
 git -C "$W/repo" checkout -- .
 flock -u 9
+[ "${SKIP_CHECKS:-0}" = "1" ] && CHECKS=""
 for c in $CHECKS; do
   out=$(/verif/tools/mutant_run.sh "$c" "$DST/patch.diff" quick 2>&1 | tail -n 6)
   echo "$out" >> "$LOG"
